@@ -43,6 +43,13 @@ func (s *RedundantMessenger) SendMessage(peerId string, message []byte, messageT
 		for {
 			select {
 			case <-s.ticker.C:
+				// A stopped sender must not send again: select picks at
+				// random when a tick and the stop signal are both ready.
+				select {
+				case <-s.stop:
+					return
+				default:
+				}
 				err := s.messenger.SendMessage(peerId, message, messageType)
 				if err != nil {
 					log.Debugf("[RedundantSender] SendMessageWithRetry: %v", err)
